@@ -29,11 +29,13 @@ ASSUMPTIONS = ['chunksize >= 4 x matchlength (IDL documentation; what spheregrou
 def case_strategy(draw):
     ml = 10 ** (draw(st.one_of(st.integers(-40, 15), st.integers(-40, 19))) / 10.0) * (1 + 0.1 * draw(G.unitf))     # 1e-4 .. 87 deg
     fam = draw(st.sampled_from(['cluster', 'cluster', 'seam', 'seam', 'polar', 'allsky', 'lattice', 'copy', 'chain', 'polar-ring', 'polar-ring', 'pole-near',
-                                'slice-edge']))
+                                'slice-edge', 'across-pole', 'across-pole']))
     if fam == 'slice-edge':
         ml = draw(st.sampled_from([45.0, 30.0, 25.0, 60.0, 52.0, 75.0])) * (1 + 0.02 * draw(G.unitf))
     if fam == 'polar-ring':
         ml = min(max(ml, 0.05), 3.0)
+    if fam == 'across-pole':
+        ml = min(max(ml, 0.02), 3.0)
     if fam == 'allsky':
         ml = max(ml, 0.5)
     pts = draw(G.point_sets(ml, families=[fam]))
